@@ -30,11 +30,12 @@ func raceWorker(repo string) int {
 		fmt.Fprintln(os.Stderr, "race worker:", err)
 		return 2
 	}
-	// one sink per logger: a log.Logger serialises the writes to ITS output under its own mutex,
-	// two loggers sharing one bytes.Buffer would be a race of the harness, not of the renderer
-	var sink, sink2 bytes.Buffer
-	logger.ProgressLogger.SetOutput(&sink)
-	logger.WarningLogger.SetOutput(&sink2)
+	// a real (non-discarding) writer, safe for concurrent use like the default os.Stdout: any
+	// report involving the loggers is then a race inside the renderer's use of them
+	sink := &countSink{}
+	logger.ProgressLogger.SetOutput(sink)
+	logger.WarningLogger.SetOutput(sink)
+	renderTimeout = 10 * time.Minute // the detector slows rendering 5-20x
 	r := rng.New(uint64(len(docs)))
 	enc := json.NewEncoder(os.Stdout)
 	for pos := 0; pos < len(docs); {
@@ -54,14 +55,24 @@ func raceWorker(repo string) int {
 			}(k)
 		}
 		wg.Wait()
-		sink.Reset()
-		sink2.Reset()
 		for k := range group {
 			h := got[k].hashes()
 			enc.Encode(wAns{ID: group[k].ID, Raw: h.raw, Canon: h.canon, Crash: h.crash})
 		}
 	}
 	return 0
+}
+
+type countSink struct {
+	mu sync.Mutex
+	n  int
+}
+
+func (c *countSink) Write(p []byte) (int, error) {
+	c.mu.Lock()
+	c.n += len(p)
+	c.mu.Unlock()
+	return len(p), nil
 }
 
 var frameRe = regexp.MustCompile(`(?m)^\s+(/repo/\S+?):(\d+)`)
@@ -88,10 +99,6 @@ func raceKey(report string) string {
 // raceRun builds the harness with the race detector and runs the concurrent scenario under it.
 func raceRun(rn *runner, docs []Doc, seed uint64) error {
 	out := rn.out
-	limit := 2500
-	if len(docs) > limit {
-		docs = docs[:limit] // the detector slows rendering ~10x; the cap is reported in the evidence
-	}
 	exe := "/verif/.build/wrh_C15_race"
 	if b := os.Getenv("WRH_C15_RACE_EXE"); b != "" {
 		exe = b
